@@ -288,6 +288,9 @@ fn worker_regrace(doc: &J) -> J {
         let r = rx.recv_timeout(Duration::from_secs(10)).ok();
         return json!({"results": [r], "text": text, "kind": kind, "directed": true});
     }
+    if kind == "infix-precedence" {
+        return worker_prec_race(iters, nthreads);
+    }
     reg_n(&kind, 1, None);
     let stop = Arc::new(AtomicBool::new(false));
     let count = Arc::new(AtomicUsize::new(0));
@@ -317,6 +320,46 @@ fn worker_regrace(doc: &J) -> J {
     stop.store(true, Ordering::SeqCst);
     let per_thread: Vec<Option<Vec<String>>> = handles.into_iter().map(|rx| rx.recv_timeout(Duration::from_secs(10)).ok()).collect();
     json!({"per_thread": per_thread, "text": text, "kind": kind, "evaluations": count.load(Ordering::Relaxed)})
+}
+
+pub const PREC_TEXT: &str = "1 + 2 hi 3 * 4 hi 5 + 6";
+
+fn reg_prec(which: u8) {
+    use expression_engine::{register_infix_op, InfixOpAssociativity, InfixOpType};
+    let (p, id) = if which == 1 { (105, 1) } else { (125, 2) };
+    register_infix_op("hi", p, InfixOpType::CALC, InfixOpAssociativity::LEFT, Arc::new(move |a, b| Ok(echo(id, vec![a, b]))));
+}
+
+/// R re-registers `hi` alternately at precedence 105 and 125 while the other threads parse a text
+/// whose grouping depends on it: every parse must be one of the two sequential trees
+fn worker_prec_race(iters: u64, nthreads: usize) -> J {
+    reg_prec(1);
+    let stop = Arc::new(AtomicBool::new(false));
+    let count = Arc::new(AtomicUsize::new(0));
+    let mut handles = vec![];
+    for _ in 0..nthreads {
+        let (tx, rx) = channel::<Vec<String>>();
+        let (stop, count) = (stop.clone(), count.clone());
+        std::thread::spawn(move || {
+            let mut seen: Vec<String> = vec![];
+            while !stop.load(Ordering::SeqCst) {
+                let r = do_call(&format!("parse:{}", PREC_TEXT), 0);
+                count.fetch_add(1, Ordering::Relaxed);
+                if !seen.contains(&r) {
+                    seen.push(r);
+                }
+            }
+            let _ = tx.send(seen);
+        });
+        handles.push(rx);
+    }
+    for i in 0..iters {
+        reg_prec(1 + ((i + 1) % 2) as u8);
+    }
+    std::thread::sleep(Duration::from_millis(2));
+    stop.store(true, Ordering::SeqCst);
+    let per_thread: Vec<Option<Vec<String>>> = handles.into_iter().map(|rx| rx.recv_timeout(Duration::from_secs(10)).ok()).collect();
+    json!({"per_thread": per_thread, "text": PREC_TEXT, "kind": "infix-precedence", "evaluations": count.load(Ordering::Relaxed)})
 }
 
 pub fn worker() -> i32 {
@@ -554,7 +597,58 @@ fn judge_reg_result(kind: &str, text_idx: usize, result: &str, scenario: &J) -> 
     Ok(())
 }
 
+fn run_prec_race(threads: usize, iters: u64, env: &Env, st: &mut Stats) -> CaseResult {
+    let scenario = json!({"mode": "regrace", "kind": "infix-precedence", "text": 0, "threads": threads, "iters": iters, "directed": false});
+    st.eval();
+    st.hist("regrace:infix-precedence:free");
+    let doc = run_child_json(&scenario, env, st)?;
+    st.sample(|| json!({"scenario": scenario, "observed": doc}));
+    let mut allowed = vec![];
+    for (p, _) in [(105i64, 1), (125i64, 2)] {
+        let mut tab = crate::syntax::OpTable::builtin();
+        tab.infix.insert("hi".into(), (p, false));
+        let (r, _, _) = crate::syntax::parse_text(PREC_TEXT, &tab).map_err(|e| Failure::new("harness-bug:prec", e, scenario.clone()))?;
+        allowed.push(format!("Parsed({})", r.sexp()));
+    }
+    let mut torn: Option<Failure> = None;
+    for t in doc["per_thread"].as_array().cloned().unwrap_or_default() {
+        let seen = match t.as_array() {
+            Some(s) => s.clone(),
+            None => return Err(Failure::new("deadlock:regrace:infix-precedence", format!("a parsing thread never returned; output: {}", doc), scenario)),
+        };
+        let mut both = 0;
+        for r in &seen {
+            let r = r.as_str().unwrap_or("");
+            if r.starts_with("PANIC") {
+                return Err(Failure::new(format!("panic:{}", panic_file(&r[6..])), format!("parse during re-registration panicked: {}", r), scenario.clone()));
+            }
+            if allowed.iter().any(|a| a == r) {
+                both += 1;
+            } else if r.starts_with("Parsed(") {
+                torn.get_or_insert(Failure::new(
+                    "torn-registration:infix-precedence",
+                    format!("one parse of `{}` used the precedence 105 for one occurrence of `hi` and 125 for the other: {} - neither of the two sequential trees", PREC_TEXT, r),
+                    scenario.clone(),
+                ));
+            } else {
+                return Err(Failure::new("registration-gap:infix-precedence", format!("a parse of `{}` during re-registration gave {}", PREC_TEXT, r), scenario.clone()));
+            }
+        }
+        if both >= 2 {
+            st.nontrivial(&format!("regrace:infix-precedence:{}", threads));
+        }
+    }
+    st.hist_add("regrace:evaluations", doc["evaluations"].as_u64().unwrap_or(0));
+    match torn {
+        Some(f) => Err(f),
+        None => Ok(()),
+    }
+}
+
 fn run_regrace(kind: &str, text_idx: usize, threads: usize, iters: u64, directed: bool, env: &Env, st: &mut Stats) -> CaseResult {
+    if kind == "infix-precedence" {
+        return run_prec_race(threads, iters, env, st);
+    }
     let scenario = json!({"mode": "regrace", "kind": kind, "text": text_idx, "threads": threads, "iters": iters, "directed": directed});
     st.eval();
     st.hist(&format!("regrace:{}:{}", kind, if directed { "directed" } else { "free" }));
@@ -600,7 +694,7 @@ fn run_regrace(kind: &str, text_idx: usize, threads: usize, iters: u64, directed
 }
 
 const A_KINDS: [&str; 6] = ["parse:1+2", "exec:1+2", "reg_fn:fresh", "reg_prefix:fresh", "reg_infix:+", "reg_postfix:fresh"];
-const REG_KINDS: [&str; 4] = ["function", "prefix", "infix", "postfix"];
+const REG_KINDS: [&str; 5] = ["function", "prefix", "infix", "postfix", "infix-precedence"];
 
 fn tolerate_known(env: &Env, st: &mut Stats, r: CaseResult) -> CaseResult {
     match r {
@@ -628,7 +722,7 @@ fn fixed(env: &Env, st: &mut Stats) -> CaseResult {
     for k in REG_KINDS {
         for text_idx in 0..2 {
             i += 1;
-            if env.mine(i) {
+            if env.mine(i) && k != "infix-precedence" {
                 let r = run_regrace(k, text_idx, 1, 0, true, env, st);
                 tolerate_known(env, st, r)?;
             }
